@@ -700,8 +700,9 @@ class VMF:
         except ValueError:
             pass  # Already removed.
 
-        _remove_copyset(self.by_class, item['classname'].casefold(), item)
-        _remove_copyset(self.by_target, item['targetname'].casefold() or None, item)
+        if item is not self.spawn:  # Worldspawn is never in .entities, and always stays indexed.
+            _remove_copyset(self.by_class, item['classname'].casefold(), item)
+            _remove_copyset(self.by_target, item['targetname'].casefold() or None, item)
         if 'nodeid' in item:
             try:
                 node_id = int(item['nodeid'])
@@ -819,6 +820,9 @@ class VMF:
             Cordon.parse(map_obj, ent)
 
         map_spawn = tree.find_block('world', or_blank=True)
+        # The placeholder worldspawn made by __init__ is replaced, so take it out of the lookups.
+        _remove_copyset(map_obj.by_class, 'worldspawn', map_obj.spawn)
+        _remove_copyset(map_obj.by_target, None, map_obj.spawn)
         map_obj.spawn = worldspawn = Entity.parse(map_obj, map_spawn, _worldspawn=True)
         # Ensure the correct classname, which adds to by_class as a side effect. It is possible
         # to name worldspawn, kinda pointless though.
@@ -2981,7 +2985,7 @@ class Entity(MutableMapping[str, str]):
 
         # Update the by_class/target dicts with our new value
         if key_fold == 'classname':
-            _remove_copyset(self.map.by_class, orig_val or '', self)
+            _remove_copyset(self.map.by_class, (orig_val or '').casefold(), self)
             if self in self.map.entities:
                 self.map.by_class[str_val.casefold()].add(self)
             elif self is self.map.spawn:
@@ -2990,9 +2994,9 @@ class Entity(MutableMapping[str, str]):
                     raise ValueError('The worldspawn entity must remain worldspawn!')
                 self.map.by_class['worldspawn'].add(self)
         elif key_fold == 'targetname':
-            _remove_copyset(self.map.by_target, orig_val, self)
-            if self in self.map.entities:
-                self.map.by_target[str_val].add(self)
+            _remove_copyset(self.map.by_target, (orig_val or '').casefold() or None, self)
+            if self in self.map.entities or self is self.map.spawn:
+                self.map.by_target[str_val.casefold() or None].add(self)
         elif key_fold == 'nodeid':
             try:
                 node_id = int(orig_val)  # type: ignore  # Using as a cast
@@ -3018,10 +3022,6 @@ class Entity(MutableMapping[str, str]):
                 del self[k]
             return
         key = key.casefold()
-        if key == 'targetname':
-            _remove_copyset(self.map.by_target, self._keys.get('targetname', None), self)
-            self.map.by_target[None].add(self)
-
         if key == 'classname':
             raise KeyError('Classnames cannot be deleted!')
 
@@ -3029,7 +3029,11 @@ class Entity(MutableMapping[str, str]):
             if k.casefold() == key:
                 # After popping we break out and won't iterate.
                 val = self._keys.pop(k)  # noqa: B909
-                if key == 'nodeid':
+                if key == 'targetname':
+                    _remove_copyset(self.map.by_target, val.casefold() or None, self)
+                    if self in self.map.entities or self is self.map.spawn:
+                        self.map.by_target[None].add(self)
+                elif key == 'nodeid':
                     try:
                         node_id = int(val)
                     except (TypeError, ValueError):
@@ -3073,8 +3077,9 @@ class Entity(MutableMapping[str, str]):
         key = key.casefold()
         for k in self._keys:
             if k.casefold() == key:
-                # TODO: B909 bug?
-                return self._keys.pop(k)
+                value = self._keys[k]
+                del self[k]  # Keeps by_target and the node IDs up to date, and refuses classnames.
+                return value
         return default
 
     def clear(self) -> None:
@@ -3086,6 +3091,7 @@ class Entity(MutableMapping[str, str]):
         self['classname'] = 'info_null'
         del self['targetname']
         self._keys.clear()
+        self._keys['classname'] = 'info_null'  # by_class now lists us under this class.
         # Clear $fixup as well.
         self._fixup = None
     clear_keys = clear
